@@ -361,7 +361,18 @@ def w_param_map(case):
                    np.full((1, 1, 1), 100.0 * (k + 1)))
     ds = xr.Dataset(data, coords={'chain': [0], 'draw': [0], 'individual': ['x']})
     pmap = dict(case['map'])
+    names_before = list(pm.get_parameter_names())
+    if case.get('earlier'):
+        # the same predictive model served another posterior predictive model
+        # (with another map) before
+        chi.PosteriorPredictiveModel(pm, ds, param_map=dict(case['earlier']))
     ppm = chi.PosteriorPredictiveModel(pm, ds, param_map=dict(pmap))
+    if list(pm.get_parameter_names()) != names_before:
+        viol.append({'sub': 'pm_names', 'message': 'building posterior predictive '
+                     'models renamed the parameters of the predictive model',
+                     'expected': names_before,
+                     'observed': list(pm.get_parameter_names()),
+                     'behaviour': 'param_map'})
 
     def base(stream, index, kind, n=None):
         return 0.0 if kind == 'z' else (0.5 if kind == 'u' else 0)
@@ -458,11 +469,11 @@ def build(tier, seed):
         for n_ids in range(1, max_ids + 1):
             hc = hier.make_case(spec, n_ids, seed)
             for ns in (1, 3) if tier == 'thorough' else (2,):
-                for sd in (1, 2) if tier == 'thorough' else (1 + i % 2,):
+                for sd in (0, 1, 2) if tier == 'thorough' else ((0, 1, 2)[i % 3],):
                     init.append({'kind': 'hier', 'hcase': hc, 'n_samples': ns,
                                  'seed': sd})
     for ns in (1, 2, 3):
-        for sd in (1, 2):
+        for sd in (0, 1, 2):
             init.append({'kind': 'individual', 'n_samples': ns, 'seed': sd})
     fspecs = [rp.Comp([rp.G(1), rp.LN(1, False), rp.TG(1)]), rp.G(3),
               rp.Comp([rp.G(1), rp.P(1), rp.H(1)]),
@@ -497,6 +508,7 @@ def build(tier, seed):
         items = [['q%d' % j, c] for j, c in enumerate(choice) if c is not None]
         for order in (items, items[::-1]):
             pmaps.append({'map': order})
+            pmaps.append({'map': order, 'earlier': [['q0', 'a'], ['q2', 'b']]})
             if len(items) < 2:
                 break
     optf = []
